@@ -233,6 +233,23 @@ func execC11(op string, a []sx) sx {
 		if bad != nil {
 			return *bad
 		}
+	case "bigmap":
+		// a collection DURING the decode of a large, freshly created map: with GC percent 1 the allocations
+		// of the decode itself (map growth, strings) start collections while entries are still being added
+		for round := 0; round < 3; round++ {
+			old := debug.SetGCPercent(1)
+			dst := reflect.New(b.typ)
+			err := b.codec.Read(avro.NewReadBuf(append([]byte(nil), data...)), dst.UnsafePointer())
+			debug.SetGCPercent(old)
+			if err != nil {
+				return T("decodeerr")
+			}
+			churn(1)
+			if bad := check(fmt.Sprintf("map-decoded-across-collections-%d", round), dst.Elem()); bad != nil {
+				return *bad
+			}
+			runtime.KeepAlive(dst)
+		}
 	default:
 		panic("harness: gc mode " + mode)
 	}
@@ -301,6 +318,12 @@ func gcForced() []gcShape {
 		{mapOf(nullable(long)), mp(T("nullT", A("int")))},
 		{mapOf(nullable(&asch{kind: "string", timeTarget: true})), mp(T("nullT", A("time")))},
 		{mapOf(&asch{kind: "bytes"}), ptr(mp(tBytes))},
+		// allocation ORDER inside one fresh bank: a pointer-free 8-byte value is allocated first, then
+		// pointer-carrying 8-byte slots (map pointer, pointer to pointer), 16- and 24-byte headers
+		{rec(long, mapOf(str), nullable(str), mapOf(mapOf(str)), &asch{kind: "double"}, arrOf(str), str),
+			strct("Ord", ptr(tInt(64)), ptr(mp(tString)), ptr(ptr(tString)), mp(mp(tString)), ptr(A("f64")), ptr(sl(tString)), ptr(tString))},
+		{rec(&asch{kind: "double"}, nullable(mapOf(long)), mapOf(arrOf(str))),
+			strct("Ord2", ptr(A("f64")), ptr(mp(tInt(64))), mp(ptr(sl(tString))))},
 	}
 }
 
@@ -378,6 +401,43 @@ func genC11(c *ctx) {
 			timeStrings(w, rs, v)
 			emit(w, rs, target, v)
 		}
+	}
+	// large maps created by the decode itself (collections happen while entries are being added)
+	for _, kind := range []string{"string", "map"} {
+		val := sPrim("string")
+		vt := tString
+		if kind == "map" {
+			val = sMap(sPrim("long"))
+			vt = T("map", tString, tInt(64))
+		}
+		sch := sRecord("Big", avro.SchemaRecordField{Name: "m", Type: sMap(val)}, avro.SchemaRecordField{Name: "pad", Type: sPrim("long")})
+		target := T("struct", hs("Big"), hs(""),
+			T("field", hs("M"), A("true"), hs("m"), hs(""), T("map", tString, vt)),
+			T("field", hs("Pad"), A("true"), hs("pad"), hs(""), tInt(64)))
+		wb := avro.NewWriteBuf(nil)
+		n := c.scale(3000, 12000)
+		for blk := 0; blk < 3; blk++ {
+			wb.Varint(int64(n / 3))
+			for i := 0; i < n/3; i++ {
+				k := fmt.Sprintf("key-%d-%d", blk, i)
+				wb.Varint(int64(len(k)))
+				wb.Write([]byte(k))
+				if kind == "map" {
+					wb.Varint(1)
+					wb.Varint(1)
+					wb.Write([]byte("x"))
+					wb.Varint(int64(i))
+					wb.Varint(0)
+				} else {
+					v := fmt.Sprintf("value-%d-%d-xxxxxxxxxxxxxxxx", blk, i)
+					wb.Varint(int64(len(v)))
+					wb.Write([]byte(v))
+				}
+			}
+		}
+		wb.Varint(0)
+		wb.Varint(7)
+		c.emit(T("gc", A("bigmap"), target, schemaSx(sch), H(wb.Bytes())))
 	}
 	// random schemas with derived targets (pointers sprinkled in by tgen)
 	n := c.scale(150, 3000)
